@@ -534,6 +534,13 @@ def beast_specs(rng, nframes, force_1a=True):
                     b[j] = 0x1A
                 for _ in range(keep):
                     b[rng.randrange(1, len(b))] = rng.randrange(256)
+                if long_ and rng.random() < 0.35:
+                    # the longest frame the format can carry: EVERY escapable byte (6 + 1 + 14) is 0x1A - 2 + 2 * 21 = 44 bytes on
+                    # the wire (a length bound that counts the signal level once says 43); its first byte makes it "DF 3", which
+                    # the admission rule lets through
+                    ts, sig = bytearray(b"\x1a" * 6), 0x1A
+                    for j in range(len(b)):
+                        b[j] = 0x1A
             elif where == "ts":
                 ts[rng.randrange(6)] = 0x1A
             elif where == "sig":
